@@ -1,17 +1,18 @@
 SPECIFICATION MCSpec
 CONSTANTS
   Servers = {"a", "b", "c"}
-  MaxInst = 4
+  MaxInst = 3
   Barrier = FALSE
   AcqBarrier = TRUE
   NotLeaderPanics = FALSE
   ApplyRefuses = TRUE
-  MaxReq = 2
-  MaxTransfers = 1
-  MaxCancels = 1
+  QueueGroup = TRUE
+  MaxReq = 3
+  MaxTransfers = 0
+  MaxCancels = 0
   MaxSlow = 1
   MaxLog = 3
-  OpSet = {"create", "delete", "expand", "shrink", "elect"}
+  OpSet = {"create", "shrink", "elect"}
 INVARIANTS Inv_Current
 VIEW MCView
 CHECK_DEADLOCK FALSE
